@@ -18,8 +18,11 @@ CHECK = 'c20_check'
 SHOW = 'c20_show'
 SHARD = 40
 RULE = ('cases = (table of <= 40 rows x 1-4 numeric columns on a dyadic grid, target, tree source '
-        '[sklearn DecisionTreeRegressor depth 1/2/3/None x seed, tree of a bootstrapped RandomForestRegressor, '
-        'hand-made fitted tree with arbitrary node values, hand-made tree violating the fitted hypothesis], '
+        '[sklearn DecisionTreeRegressor depth 1/2/3/None x max_leaf_nodes None/3/4/6/8 (best-first growth: '
+        'children numbered consecutively, not pre-order) x seed, tree of a bootstrapped RandomForestRegressor '
+        '(same parameters), hand-made fitted tree with arbitrary node values, hand-made tree violating the fitted '
+        'hypothesis]; the node NUMBERING of hand-made trees is varied: pre-order, breadth-first (xgboost), '
+        'best-first (siblings consecutive), random parent-before-child order, '
         'interval engine, scaling requests); non-trivial = the converted tree has >= 5 nodes, the table has '
         '>= 6 rows and the predictions take >= 3 distinct values')
 TRUSTED_EXTRA = ['scikit-learn fitting and tree.predict are outside the model: the fitted arrays are the case, '
@@ -27,7 +30,9 @@ TRUSTED_EXTRA = ['scikit-learn fitting and tree.predict are outside the model: t
                  'hand-made trees are passed through from_decision_tree as a DecisionTreeRegressor whose tree_ '
                  'attribute carries the arrays',
                  'predictions are compared with the tolerance 1e-9*max(1,|x|); "original unchanged" exactly']
-ASSUMPTIONS = ['the tree is fitted on the table: every node is reached by a row and no value lies strictly '
+ASSUMPTIONS = ['node 0 is the root and every parent has a smaller index than its children (true of scikit-learn depth-first '
+               'and best-first builders and of xgboost; _parse_dt_arrays_to_drules reads premises[parent] while filling the list)',
+               'the tree is fitted on the table: every node is reached by a row and no value lies strictly '
                'between a threshold and threshold+1e-9 (checked in Coq on every case, counted as non-fitted otherwise)',
                'xgboost boosters, from_random_forest / from_gradient_boosting sums are not covered']
 ENGINES = ['IntervalPS', 'IntervalNumpyPS']
@@ -57,13 +62,14 @@ def build_tree(case, X, y):
     if src == 'dt':
         from sklearn.tree import DecisionTreeRegressor
         dt = DecisionTreeRegressor(max_depth=case['depth'], random_state=case['seed'],
-                                   min_samples_leaf=case.get('msl', 1), max_features=case.get('mf'))
+                                   min_samples_leaf=case.get('msl', 1), max_features=case.get('mf'),
+                                   max_leaf_nodes=case.get('mln'))
         dt.fit(X, y)
         return dt, True
     if src == 'rf':
         from sklearn.ensemble import RandomForestRegressor
         rf = RandomForestRegressor(n_estimators=case['rf_n'], max_depth=case['depth'], random_state=case['seed'],
-                                   bootstrap=True, n_jobs=1)
+                                   bootstrap=True, n_jobs=1, max_leaf_nodes=case.get('mln'))
         rf.fit(X, y)
         return rf.estimators_[case['rf_index']], True
     from types import SimpleNamespace
@@ -249,12 +255,49 @@ def grow_tree(rng, X, rows, depth, arr, fitted=True):
     return i
 
 
+def renumber(rng, arr, mode):
+    """the same tree with another node numbering (root stays 0, parents before children)"""
+    n = len(arr['cl'])
+    order = [0]                       # order[new] = old
+    if mode == 'bfs':
+        k = 0
+        while k < len(order):
+            o = order[k]
+            k += 1
+            if arr['cl'][o] != -1:
+                order += [arr['cl'][o], arr['cr'][o]]
+    elif mode == 'best':              # expand some numbered inner node: its two children get the next two numbers
+        open_ = [0] if arr['cl'][0] != -1 else []
+        while open_:
+            o = open_.pop(rng.randrange(len(open_)))
+            kids = [arr['cl'][o], arr['cr'][o]]
+            order += kids
+            open_ += [c for c in kids if arr['cl'][c] != -1]
+    else:                             # random linear extension of parent-before-child
+        front = [c for c in (arr['cl'][0], arr['cr'][0]) if c != -1]
+        while front:
+            o = front.pop(rng.randrange(len(front)))
+            order.append(o)
+            front += [c for c in (arr['cl'][o], arr['cr'][o]) if c != -1]
+    assert sorted(order) == list(range(n))
+    new_of = {o: k for k, o in enumerate(order)}
+    out = {}
+    for key in ('f', 'thr', 'val'):
+        out[key] = [arr[key][o] for o in order]
+    for key in ('cl', 'cr'):
+        out[key] = [(-1 if arr[key][o] == -1 else new_of[arr[key][o]]) for o in order]
+    return out
+
+
 def mock_case(rng, max_rows, engine):
     X, y = random_table(rng, max_rows)
     arr = {'cl': [], 'cr': [], 'f': [], 'thr': [], 'val': []}
     grow_tree(rng, X, list(range(len(X))), rng.randint(1, 5), arr)
+    numbering = rng.choice(['pre', 'bfs', 'best', 'best', 'random', 'random'])
+    if numbering != 'pre':
+        arr = renumber(rng, arr, numbering)
     return {'engine': engine, 'X': [[f2(v) for v in r] for r in X], 'y': [f2(v) for v in y], 'src': 'mock',
-            'tree': arr, 'scales': random_scales(rng), 'depth': None, 'seed': 0}
+            'tree': arr, 'scales': random_scales(rng), 'depth': None, 'seed': 0, 'numbering': numbering}
 
 
 def broken_case(rng, max_rows, engine):
@@ -299,7 +342,8 @@ def broken_case(rng, max_rows, engine):
 def fitted_case(rng, max_rows, engine):
     X, y = random_table(rng, max_rows)
     c = {'engine': engine, 'X': [[f2(v) for v in r] for r in X], 'y': [f2(v) for v in y],
-         'depth': rng.choice([1, 2, 3, None]), 'seed': rng.randrange(1000), 'scales': random_scales(rng)}
+         'depth': rng.choice([1, 2, 3, None]), 'seed': rng.randrange(1000), 'scales': random_scales(rng),
+         'mln': rng.choice([None, None, 3, 4, 6, 8])}
     if rng.random() < 0.3:
         c.update(src='rf', rf_n=rng.randint(2, 4))
         c['rf_index'] = rng.randrange(c['rf_n'])
@@ -336,6 +380,7 @@ def nontrivial(case):
 
 def stats(case):
     d = {'src': case['src'], 'engine': case['engine'], 'rows': len(case['X']), 'cols': len(case['X'][0]),
+         'max_leaf_nodes': case.get('mln'), 'numbering': case.get('numbering', 'sklearn'),
          'depth': case['depth'], 'n_scales': len(case['scales'])}
     if 'tree' in case:
         d['mock_nodes'] = len(case['tree']['cl'])
@@ -355,6 +400,8 @@ def shrink(case):
     if n > 1:
         for i in range(n):
             out.append(dict(case, X=case['X'][:i] + case['X'][i + 1:], y=case['y'][:i] + case['y'][i + 1:]))
+    if case['src'] in ('dt', 'rf') and case.get('mln') not in (None, 3):
+        out.append(dict(case, mln=3))
     if case['src'] in ('dt', 'rf') and case['depth'] is None:
         out.append(dict(case, depth=3))
     if case['src'] in ('dt', 'rf') and case['depth'] in (2, 3):
